@@ -25,10 +25,13 @@ EXHAUSTIVE = {'quick': False, 'thorough': False}
 MS = 1000000          # quantum of the model lines: microseconds
 
 
-def run_session(rng, I, T, delays, unsolicited, horizon, tie=None, submits=(), sub_answer=True, stall_at=None):
+def run_session(rng, I, T, delays, unsolicited, horizon, tie=None, submits=(), sub_answer=True, stall_at=None, seq_start=None):
     """returns (keeper runs, events); a keeper run = dict(start, end, how, arrivals, probes, conn)"""
     s = Sim(enquire_link_interval=I, socket_timeout=T)
     runs = []
+    if seq_start is not None:
+        # a long-running ESME: the sequence numbers are about to wrap (the probes draw from the same generator)
+        s.esme.sequence_generator.sequence_num = seq_start
     try:
         orig = s.esme._connection_keeper
         cur = {}
@@ -204,12 +207,16 @@ def scenario(rng, tie=False):
     stall_at = None
     if not tie and rng.random() < 0.3:
         stall_at = round(rng.uniform(0.5, horizon * 0.6), 3) + 0.000533
-    return I, T, dl, uns, horizon, (pat, up, sp, answer if subs else None, stall_at is not None), subs, answer, stall_at
+    seq_start = None
+    if not tie and rng.random() < 0.25:
+        seq_start = 0x7FFFFFFF - rng.randrange(0, 4)
+    return I, T, dl, uns, horizon, (pat, up, sp, answer if subs else None, stall_at is not None, seq_start is not None), subs, answer, \
+        stall_at, seq_start
 
 
 def cases_of(rng, tie=False):
-    I, T, dl, uns, horizon, cls, subs, answer, stall_at = scenario(rng, tie)
-    runs, ev = run_session(rng, I, T, dl, uns, horizon, submits=subs, sub_answer=answer, stall_at=stall_at)
+    I, T, dl, uns, horizon, cls, subs, answer, stall_at, seq_start = scenario(rng, tie)
+    runs, ev = run_session(rng, I, T, dl, uns, horizon, submits=subs, sub_answer=answer, stall_at=stall_at, seq_start=seq_start)
     out = []
     for r in runs:
         if r['end'] is None:
@@ -229,7 +236,7 @@ def cases_of(rng, tie=False):
             real = line + ' tie=0'
         sig = ('keeper', I, T, cls, len(runs), dropped is not None, tie)
         inp = {'op': 'session', 'I': I, 'T': T, 'delays': dl, 'unsolicited': uns, 'horizon': horizon, 'tie': tie,
-               'submits': subs, 'sub_answer': answer, 'stall_at': stall_at}
+               'submits': subs, 'sub_answer': answer, 'stall_at': stall_at, 'seq_start': seq_start}
         out.append((line, real, sig, fail, inp))
     return out
 
@@ -247,7 +254,8 @@ def generate(rng, tier):
 
 def replay(inp):
     runs, ev = run_session(None, inp['I'], inp['T'], inp['delays'], [tuple(u) for u in inp['unsolicited']], inp['horizon'],
-                           submits=inp.get('submits', ()), sub_answer=inp.get('sub_answer', True), stall_at=inp.get('stall_at'))
+                           submits=inp.get('submits', ()), sub_answer=inp.get('sub_answer', True), stall_at=inp.get('stall_at'),
+                           seq_start=inp.get('seq_start'))
     worst = None
     for r in runs:
         if r['end'] is None:
